@@ -53,6 +53,13 @@ chk("C05", "Coq theorems: format_string's 32-byte block algorithm equals the per
     "ryu/itoa are third-party: printed numbers are checked to denote exactly the value written. The Compound/State comma machine is tied by the correspondence to the recursive printer the theorems are about.",
     "Coq proof (block-scan instance, table sweeps, formatter state machine) + model-vs-code correspondence")
 
+chk("C15", "Coq theorems about the reference model of vectors and string-keyed maps (Model/DomOps.v): an operation changes no live value other than the one it addresses (isolation), rejected operations leave every value unchanged; promotion of an arena object (first match wins) to an owned map keeps every lookup for duplicate-free objects (and not with duplicates: F6, recorded). Tie: random histories over the public Array/Object/Entry/Index/pointer/take/clone API with donors cloned from other live values; after every step the result and the sorted dump of every live value equal the reference run.",
+    "Isolation of two owned Values in the implementation is Rust's ownership rule (safe code) plus Arc::make_mut; it is observed by the per-step dumps, not proved about the unsafe arena code. Documents without duplicate names.",
+    "Coq proof (frame theorems over the reference step function, promotion lemma) + refinement checked by model-vs-code correspondence on histories")
+chk("C16", "Coq theorems about the manual reference-counting protocol (Model/Arc.v): for every history of parse / clone / promote / drop the strong count of an arena equals the number of live handles into it, nothing is used after free or freed twice, an arena nobody holds is released. Tie: on random histories the real Arc strong count (hook) equals the number of distinct live root-kind values pointing into the arena after every step; random drop orders with reads of the survivors.",
+    "Threads: Arc's atomicity is std's; interleavings are not explored here. Release of memory is argued by the count reaching zero (Arc), not measured by an allocator ledger in the quick tier.",
+    "Coq proof (history invariant) + invariant evaluated on the implementation's real counters")
+
 NA = {}
 ALL = ["C%02d" % i for i in range(1, 21)]
 for p in ALL:
